@@ -1,4 +1,5 @@
 """C09 - the asserted value is only borrowed."""
+import t2
 import t3
 import tgen
 import positions as P
@@ -96,5 +97,11 @@ def run(ck):
     ck.corr_record("T3 value reuse (generated programs use the asserted value after the assertion; rustc's move checker and a before/after Debug comparison decide)",
                    len(cases), len(nontriv), 0, dist,
                    samples=[dict(position=c.position, invocation="assert_struct!(%s)" % c.text, value=c.value_text, outcome=c.got[0]) for c in cases[:3]],
-                   rule="seeded non-Copy (type, value, pattern) bases x the 17 positions, and x 13 ways of writing the asserted expression at the root (method call, field, index, deref, borrow, call, block, ...) with every owner used afterwards; distinct = distinct (invocation, value); non-trivial = the inner pattern is not `_`")
+                   rule="seeded non-Copy (type, value, pattern) bases x the 19 positions, and x 13 ways of writing the asserted expression at the root (method call, field, index, deref, borrow, call, block, ...) with every owner used afterwards; distinct = distinct (invocation, value); non-trivial = the inner pattern is not `_`")
+    # C09_root_not_consumed and the consumes judgment are about the generator model: tie it to the real expansion
+    res = t2.run(ck)
+    mm = t2.record(ck, res, ("body",), "how the value expression is bound and handed on")
+    if mm and not [v for v in ck.violations if not v["no_input"]]:
+        ck.report("corr:T2-body", "the model of the code generator no longer matches the real expansion (%d inputs differ)" % len(mm),
+                  dict(broken="correspondence T2 (expansion tokens)", theorems=["C09_root_not_consumed"], first=mm[:3]), no_input=True)
     ck.assumptions += ["rustc's borrow checker is the oracle for 'moves'; the model's `consumes` judgment (AsModel.Static) is validated against it cell by cell"]
